@@ -100,6 +100,10 @@ func runTravCase(t pbt.TB, c travCase) {
 			return
 		}
 		if order {
+			if !model.CountComparable(c.Steps) {
+				pbt.Class(t, "order-sensitive step followed by a filter or move: not comparable")
+				continue
+			}
 			if i == 0 {
 				first = out.Rows
 			} else if len(out.Rows) != len(first) {
